@@ -244,6 +244,7 @@ def run(ctx):
                         if (a["outcome"] != b["outcome"] or (a["outcome"] == "ok" and a["values"] != b["values"])) and \
                                 "replay.first_call_fresh_randsz_list" in known and has_randsz(c) and (first_call_on(c, z) or replays_first_call(c, z, k)):
                             stats["known_region"] = stats.get("known_region", 0) + 1
+                            stats.setdefault("known_region_replay_cases", []).append({"case": c, "calls": [z, k]})
                             continue
                         if a["outcome"] != b["outcome"] or (a["outcome"] == "ok" and a["values"] != b["values"]):
                             core.add_violation(ctx, "call %d %r starts from the same random state as call %d %r (model) but returns %r instead "
@@ -296,6 +297,7 @@ def run(ctx):
         "exhaustive": False,
         "replayed_calls_compared": stats["replayed_calls"],
         "known_region_cases": stats.get("known_region", 0),
+        "known_region_replay_cases": stats.get("known_region_replay_cases", [])[:2],
         "outcomes": stats["outcomes"],
         "correspondence_mismatches": len(ctx.tie_broken),
     })
